@@ -100,7 +100,28 @@ def transitions(prog, ctx, op, depth_bound=7, unsafe_mode=False, emit=True, vers
                                mutators=G.AbsMutators(ctx, max_iter=max_iter))
         one.last = {"I": I, "h": h, "can": None, "ret": None}
         opv = ctx.opcode_value(op)
-        can = I.truth(I.call(ce_key, [h.ref(), opv]))
+        extra = []
+        if prog.bodies[ce_key]["arg_count"] > 2:
+            # can_emit takes more than (self, opcode): the extra arguments are whatever its caller get_valid_opcodes computes from
+            # the state for THIS opcode.  Run the caller on the same abstract state (same decision script) with can_emit stubbed:
+            # candidates before `op` are answered "no", the call for `op` hands over its arguments.
+            class _Captured(Exception):
+                pass
+
+            def _stub(I2, k, a, opname=op):
+                if getattr(a[1], "vname", None) == opname:
+                    e = _Captured()
+                    e.extra = list(a[2:])
+                    raise e
+                return False
+            gv_key = prog.find("::get_valid_opcodes")
+            I0 = Interp(prog, run, mf(), stubs={ce_key: _stub})
+            try:
+                I0.call(gv_key, [h.ref()])
+                extra = None          # not a candidate in this protocol's row: it cannot be chosen on this path at all
+            except _Captured as e:
+                extra = e.extra
+        can = False if extra is None else I.truth(I.call(ce_key, [h.ref(), opv] + extra))
         st = {"I": I, "h": h, "can": can, "ret": None}
         one.last = st
         if can and emit:
